@@ -129,6 +129,14 @@ def handle (args : List String) : String :=
       let f := ccittOf cols k rows flags
       toString (if f.budgetOk nb then f.decParams.maxRows else 0)
     | _, _, _, _ => "bad-args"
+  | ["jbig2pull", avail] =>   -- bytes FilterJBIG2.Decode pulls from an endless upstream: the cap
+                              -- min(budget.Available(), MaxJBIG2PageBytes+1) and one probe byte
+    match int? avail with
+    | some avail =>
+      let limit := min avail ((Gen.limits_MaxJBIG2PageBytes : Int) + 1)
+      -- more than MaxJBIG2PageBytes read: "exceeds size limit" without the probe read
+      toString (if limit > (Gen.limits_MaxJBIG2PageBytes : Int) then limit else limit + 1)
+    | none => "bad-args"
   | ["info", "flate", v, p, c, b, col] =>
     match nat? v, int? p, int? c, int? b, int? col with
     | some v, some p, some c, some b, some col =>
